@@ -2,13 +2,18 @@
 
 Every value of the bounded sets (all 65 536 INTEGERs; complete structured sets
 of LONG, SINGLE and DOUBLE values, see qv/c16_values.py) goes through one
-compiled looping program per type: the value enters through the environment
-(INPUT of an exact text, or the RND device answer for SINGLE), the program
-PRINTs it, PRINTs STR$ of it, reads the printed text back through INPUT and
-through VAL, and PRINTs what it got.  A second program READs the printed texts
-from DATA.  The texts are judged by the exact-rational predicates of
-qv/ref/numtext.py."""
-from .. import impl, textdrv
+compiled looping program per type on the real VM: the value enters through the
+environment (INPUT of an exact text, or the RND device answer for SINGLE), the
+program PRINTs it, PRINTs STR$ of it, reads the printed text back through INPUT
+and through VAL, and PRINTs what it got.  A second compiled program READs the
+printed texts from DATA.  What is printed is observed twice: as text (what the
+terminal device receives) and as the typed operand of the PRINT instruction
+(the exact machine value), so the value that came back is known exactly without
+trusting the formatter under test.  The texts and the values read back are
+judged by the exact-rational predicates of qv/ref/numtext.py."""
+import math
+from .. import impl
+from .. import c16_drv as drv
 from .. import c16_values as V
 from ..ref import numtext
 
@@ -22,24 +27,24 @@ def loop_source(typ):
     t = SUFFIX[typ]
     entry = 'x! = RND(1)' if typ == 'SINGLE' else 'INPUT "", x' + t
     lines = ['DO', 'BEEP', entry,
-             'PRINT x' + t,
-             'PRINT STR$(x%s)' % t,
-             'INPUT "", z' + t,
-             'PRINT z' + t,
-             'IF z%s = x%s THEN PRINT "=" ELSE PRINT "<>"' % (t, t),
-             's$ = STR$(x%s)' % t,
-             'v# = VAL(s$)',
-             'y%s = v#' % t,
-             'PRINT y' + t,
-             'IF y%s = x%s THEN PRINT "=" ELSE PRINT "<>"' % (t, t),
+             'PRINT x' + t,                 # typed[0]: the value; its text is "the PRINT text"
+             'PRINT STR$(x%s)' % t,         # typed[1]: the STR$ string
+             'INPUT "", z' + t,             # answered with the PRINT text
+             'PRINT z' + t,                 # typed[2]: what INPUT made of it
+             'y%s = VAL(STR$(x%s))' % (t, t),
+             'PRINT y' + t,                 # typed[3]: what VAL made of it, at the type
              'LOOP']
     return '\n'.join(lines) + '\n'
 
 
 def read_source(typ, texts, per_line=40):
+    """READ every text at the type.  A READ that fails is a run-time error; the
+    handler steps over the item (reads it as a string), says so and resumes, so
+    one item that cannot be read does not hide the following ones.  RESUME NEXT
+    needs a build with debug information."""
     t = SUFFIX[typ]
-    lines = ['DO', 'BEEP', 'INPUT "", m%', 'IF m% = 0 THEN', 'READ r' + t, 'PRINT r' + t,
-             'ELSE', 'READ d$', 'END IF', 'LOOP']
+    lines = ['ON ERROR GOTO 100', 'DO', 'BEEP', 'READ r' + t, 'PRINT r' + t, 'LOOP',
+             '100 READ d$', 'PRINT "E"; ERR', 'RESUME NEXT']
     for i in range(0, len(texts), per_line):
         lines.append('DATA ' + ', '.join(texts[i:i + per_line]))
     return '\n'.join(lines) + '\n'
@@ -51,7 +56,7 @@ _MODULES = {}
 def loop_module(typ, cfg=(0, False)):
     key = (typ, cfg)
     if key not in _MODULES:
-        r = impl.compile_text(loop_source(typ), cfg[0], cfg[1], want_listing=False)
+        r = impl.compile_text(loop_source(typ), cfg[0], cfg[1], limit=600.0, want_listing=False)
         if not r.ok:
             raise RuntimeError('C16 loop program rejected: ' + r.brief())
         _MODULES[key] = impl.load(r.binary)
@@ -68,18 +73,32 @@ def _readback_answer(rec):
     return prev.split('\r\n')[0]
 
 
+def _typed_number(rec, k, typ):
+    """the single numeric operand of the k-th PRINT of the iteration -> value | None"""
+    ty = rec.get('typed') or []
+    if k >= len(ty) or not ty[k]:
+        return None
+    it = ty[k][0]
+    if isinstance(it, tuple) and it[0] == typ:
+        return it[1]
+    return ('wrong-type',) + tuple(it) if isinstance(it, tuple) else None
+
+
 def observe(typ, values, cfg=(0, False)):
-    """-> list of dicts per value: print, str, readers{INPUT,VAL}=(outcome, text, eqflag)"""
+    """-> (list of observation dicts, driver info).  Per value:
+    entered (exact value the program holds), print / str (texts),
+    INPUT / VAL = ('ok', value) | ('rejected',) | ('died', end) | ('not-reached',)"""
     its = []
     for x in values:
         if typ == 'SINGLE':
             its.append({'rnd': [x], 'inputs': [_readback_answer], 'fallback': '0'})
         else:
             its.append({'inputs': [entry_text(typ, x), _readback_answer], 'fallback': '0'})
-    recs, info = textdrv.drive(loop_module(typ, cfg), its, tick_budget=5000)
+    recs, info = drv.drive(loop_module(typ, cfg), its, tick_budget=5000)
     out = []
     for x, r in zip(values, recs):
-        o = {'value': x, 'print': None, 'str': None, 'INPUT': ('not-reached',), 'VAL': ('not-reached',),
+        o = {'value': x, 'entered': None, 'print': None, 'str': None,
+             'INPUT': ('not-reached',), 'VAL': ('not-reached',),
              'end': None, 'entry_rejected': False}
         out.append(o)
         if r is None:
@@ -95,23 +114,25 @@ def observe(typ, values, cfg=(0, False)):
         if typ != 'SINGLE' and first and first[0].startswith('Redo'):
             o['entry_rejected'] = True
             continue
-        if len(first) >= 1 and (len(first) > 1):
+        o['entered'] = _typed_number(r, 0, typ)
+        if len(first) > 1:
             o['print'] = first[0]
         if len(first) >= 3:
             o['str'] = first[1]
         if len(segs) <= k + 1:
             continue
-        rest = ''.join(segs[k + 1:]).split('\r\n')
         rejected = r['extra'] > 0
+        z = _typed_number(r, 2, typ)
+        y = _typed_number(r, 3, typ)
         if rejected:
-            rest = [l for l in rest if l != 'Redo from start']
-        if len(rest) >= 3:
-            o['INPUT'] = ('rejected',) if rejected else ('ok', rest[0], rest[1])
+            o['INPUT'] = ('rejected',)
+        elif z is not None:
+            o['INPUT'] = ('ok', z)
         elif r['end'] is not None:
             o['INPUT'] = ('died', r['end'])
-        if len(rest) >= 5:
-            o['VAL'] = ('ok', rest[2], rest[3])
-        elif r['end'] is not None and len(rest) >= 3:
+        if y is not None:
+            o['VAL'] = ('ok', y)
+        elif r['end'] is not None and (z is not None or rejected):
             o['VAL'] = ('died', r['end'])
     return out, info
 
@@ -119,7 +140,14 @@ def observe(typ, values, cfg=(0, False)):
 _DATA_OK = set('0123456789.+-EeDd ')
 
 
-def observe_read(typ, obs, cfg=(0, False)):
+def _trap_name(n):
+    try:
+        return impl.TrapCode(n).name
+    except Exception:
+        return 'ERR%r' % (n,)
+
+
+def observe_read(typ, obs, cfg=(0, True)):
     """READ the printed texts back from DATA; fills o['READ']"""
     idx = [i for i, o in enumerate(obs) if o['print'] is not None and o['print'].strip()
            and set(o['print']) <= _DATA_OK]
@@ -127,24 +155,52 @@ def observe_read(typ, obs, cfg=(0, False)):
         o['READ'] = ('not-reached',)
     if not idx:
         return {'machines': 0}
+    total = {'machines': 0, 'ticks': 0}
+    deaths = 0
+    while idx:
+        done, info = _read_batch(typ, obs, idx, cfg)
+        total['machines'] += info.get('machines', 0)
+        total['ticks'] += info.get('ticks', 0)
+        # a machine that died (not a handled run-time error) lost its DATA position:
+        # the items after it go to a fresh program
+        idx = idx[done:]
+        deaths += 1
+        if deaths > 25:
+            break
+    return total
+
+
+def _read_batch(typ, obs, idx, cfg):
+    """-> (number of items of idx that are settled, driver info)"""
     texts = [obs[i]['print'].strip() for i in idx]
-    r = impl.compile_text(read_source(typ, texts), cfg[0], cfg[1], want_listing=False)
+    r = impl.compile_text(read_source(typ, texts), cfg[0], True, limit=600.0, want_listing=False)
+    if r.kind == 'timeout':
+        raise RuntimeError('C16 READ program: compile timed out (overloaded machine?)')
     if not r.ok:
         for i in idx:
             obs[i]['READ'] = ('died', ('compile', r.brief()[:120]))
-        return {'machines': 0}
+        return len(idx), {'machines': 0}
     mod = impl.load(r.binary)
-    its = [{'inputs': ['0'], 'skip': ['1']} for _ in idx]
-    recs, info = textdrv.drive(mod, its, tick_budget=5000, snapshots=True)
-    for i, rec in zip(idx, recs):
+    recs, info = drv.drive(mod, [{} for _ in idx], tick_budget=5000)
+    for k, (i, rec) in enumerate(zip(idx, recs)):
         if rec is None:
             obs[i]['READ'] = ('died', ('not-run', info.get('aborted')))
+            return k + 1, info
+        ty = rec.get('typed') or []
+        first = ty[0] if ty else None
+        if first and first[0] == ('STRING', 'E'):
+            # the error handler ran: the READ of this item was a run-time error
+            code = first[2][1] if len(first) > 2 and isinstance(first[2], tuple) else None
+            obs[i]['READ'] = ('died', ('trap', _trap_name(code)))
+            if rec['end'] is not None:
+                return k + 1, info
         elif rec['end'] is not None:
             obs[i]['READ'] = ('died', rec['end'])
+            return k + 1, info
         else:
-            lines = ''.join(rec['seg'][1:]).split('\r\n')
-            obs[i]['READ'] = ('ok', lines[0], None)
-    return info
+            v = _typed_number(rec, 0, typ)
+            obs[i]['READ'] = ('ok', v) if v is not None else ('died', ('no-print',))
+    return len(idx), info
 
 
 def _outcome(end):
@@ -177,13 +233,37 @@ def magnitude_class(typ, x):
     return '>=1e16'
 
 
+def is_pow2(typ, x):
+    """the magnitude is an exact power of two (the values of the type are spaced
+    unevenly around it: half as far below as above)"""
+    if typ in ('INTEGER', 'LONG') or x == 0:
+        return False
+    return math.frexp(abs(x))[0] == 0.5
+
+
+def _same_value(a, b):
+    if isinstance(a, float) and isinstance(b, float):
+        return a == b and math.copysign(1, a) == math.copysign(1, b)
+    return type(a) is type(b) and a == b
+
+
 def judge(typ, o, partner):
-    """-> list of (divergence, reader, outcome, expected, observed, notation)"""
+    """-> (list of (divergence, reader, outcome, expected, observed, notation), Numeral|None)"""
     x = o['value']
     bad = []
-    if o['entry_rejected'] or o['print'] is None or o['str'] is None:
+    if o['entry_rejected']:
+        # the value is handed over as INPUT of its plain decimal text (for INTEGER / LONG the very
+        # text PRINT shows, blanks aside): INPUT must take it
+        bad.append(('entry-rejected', 'INPUT', 'rejected',
+                    'INPUT x%s takes the line %r' % (SUFFIX[typ], entry_text(typ, x)), 'Redo from start', 'none'))
+        return bad, None
+    if o['print'] is None or o['str'] is None:
         bad.append(('no-text', '-', _outcome(o['end']) if not o['entry_rejected'] else 'entry-rejected',
                     'PRINT and STR$ text', impl.jsonable(o['end']), 'none'))
+        return bad, None
+    if not _same_value(o['entered'], x):
+        # the program does not hold the value the harness meant to give it
+        bad.append(('entry-differs', 'ENTRY', 'differs', repr(x), repr(o['entered']), 'none'))
         return bad, None
     ptxt, stxt = o['print'], o['str']
     notation = 'none'
@@ -193,8 +273,8 @@ def judge(typ, o, partner):
         notation = 'plain-int'
         if stxt != exp:
             bad.append(('int-text', 'STR$', 'differs', exp, stxt, notation))
-        if ptxt != exp + ' ':
-            bad.append(('int-text', 'PRINT', 'differs', exp + ' ', ptxt, notation))
+        if ptxt.rstrip(' ') != exp:        # the blank PRINT puts after a number belongs to C17
+            bad.append(('int-text', 'PRINT', 'differs', exp, ptxt, notation))
     else:
         clauses, num, info = numtext.judge_float_text(stxt, x, typ)
         notation = num.notation if num else 'none'
@@ -204,20 +284,34 @@ def judge(typ, o, partner):
             bad.append((c, 'STR$', 'differs',
                         'decimal numeral, <= %d significant digits, within half a unit of the last shown digit of %r'
                         % (numtext.MAXDIGITS[typ], x), stxt, notation))
-        if not numtext.same_digits(ptxt, stxt) or (ptxt.startswith('-') != stxt.startswith('-')):
+        # PRINT and STR$ show the same digits (and the same sign); blanks belong to C17
+        if not numtext.same_digits(ptxt, stxt) or (ptxt.strip().startswith('-') != stxt.strip().startswith('-')):
             bad.append(('print-str-differ', 'PRINT', 'differs', stxt, ptxt, notation))
     o['notation'] = notation
-    if partner is not None and partner['str'] is not None:
+    # a number and its negation show the same digits: judged once per pair, at the non-negative member
+    if partner is not None and partner['str'] is not None and not str(x).startswith('-'):
         if not numtext.same_digits(stxt, partner['str']):
-            bad.append(('negation-differs', 'STR$', 'differs', partner['str'], stxt, notation))
+            bad.append(('negation-differs', 'STR$', 'differs', stxt.strip(), partner['str'], notation))
     for rd in READERS:
         res = o.get(rd, ('not-reached',))
         if res[0] == 'ok':
-            txt, eq = res[1], res[2]
-            if txt != ptxt.rstrip('\r\n') and txt != ptxt:
-                bad.append(('readback', rd, 'differs', ptxt, txt, notation))
-            elif typ in ('INTEGER', 'LONG') and eq is not None and eq != '=':
-                bad.append(('readback', rd, 'unequal', '=', eq, notation))
+            y = res[1]
+            if isinstance(y, tuple):
+                bad.append(('readback', rd, 'wrong-type', typ, list(y[1:]), notation))
+            elif typ in ('INTEGER', 'LONG'):
+                if not _same_value(y, x):
+                    bad.append(('readback', rd, 'unequal', repr(x), repr(y), notation))
+                else:
+                    o.setdefault('exact', []).append(rd)
+            else:
+                if y == x:
+                    o.setdefault('exact', []).append(rd)
+                elif num is not None and numtext.reproduces(num, y, typ):
+                    o.setdefault('to_precision', []).append(rd)
+                else:
+                    bad.append(('readback', rd, 'unequal',
+                                '%r, or a value within half a unit of the last shown digit of %s'
+                                % (x, stxt.strip()), repr(y), notation))
         elif res[0] == 'rejected':
             bad.append(('readback', rd, 'rejected', 'text accepted and value reproduced', 'Redo from start', notation))
         elif res[0] == 'died':
@@ -246,6 +340,16 @@ def signed_values(typ, mags):
     return out
 
 
+def new_stats():
+    return {'evaluations': 0, 'nontrivial': 0, 'texts': set(), 'notations': {}, 'strict_reading_fails': 0,
+            'readbacks_exact': {}, 'readbacks_to_precision': {}, 'machines': 0, 'readers_not_reached': 0,
+            'by_class': {}, 'sig_digits': {}}
+
+
+def _bump(d, k, n=1):
+    d[k] = d.get(k, 0) + n
+
+
 def eval_values(typ, mags, cfg=(0, False), fam=None, st=None):
     sv = signed_values(typ, mags)
     values = [v for v, _ in sv]
@@ -260,18 +364,22 @@ def eval_values(typ, mags, cfg=(0, False), fam=None, st=None):
             if o['print'] is not None:
                 st['texts'].add(o['print'])
                 st['nontrivial'] += 1
-            st['notations'][typ + '/' + o.get('notation', 'none')] = \
-                st['notations'].get(typ + '/' + o.get('notation', 'none'), 0) + 1
+            _bump(st['notations'], typ + '/' + o.get('notation', 'none'))
+            if o.get('sig') is not None:
+                _bump(st['sig_digits'], '%s/%02d' % (typ, o['sig']))
             if o.get('strict_ok') is False:
                 st['strict_reading_fails'] += 1
             st['readers_not_reached'] += o.get('unjudged', 0)
-            for rd in READERS:
-                if o.get(rd, ('x',))[0] == 'ok':
-                    st['readbacks_ok'][rd] = st['readbacks_ok'].get(rd, 0) + 1
+            for rd in o.get('exact', ()):
+                _bump(st['readbacks_exact'], rd)
+            for rd in o.get('to_precision', ()):
+                _bump(st['readbacks_to_precision'], rd)
         x = o['value']
         for div, reader, outcome, exp, got, notation in bad:
             feat = {'family': typ, 'divergence': div, 'reader': reader, 'outcome': outcome,
                     'notation': notation, 'magnitude': magnitude_class(typ, x)}
+            if div == 'inaccurate':
+                feat['pow2'] = is_pow2(typ, x)
             case = {'type': typ, 'value': entry_text(typ, x) if typ != 'SINGLE' else repr(x),
                     'hex': x.hex() if isinstance(x, float) else None,
                     'config': list(cfg), 'class': fam, 'print': o['print'], 'str': o['str']}
@@ -283,8 +391,7 @@ def eval_values(typ, mags, cfg=(0, False), fam=None, st=None):
 
 def eval_chunk(chunk):
     impl.parse_cache(True)
-    st = {'evaluations': 0, 'nontrivial': 0, 'texts': set(), 'notations': {}, 'strict_reading_fails': 0,
-          'readbacks_ok': {}, 'machines': 0, 'readers_not_reached': 0, 'by_class': {}}
+    st = new_stats()
     viol = []
     for block in chunk:
         typ = block[0]
@@ -306,14 +413,14 @@ def space(tier):
                     {'classes': 'pow2 and pow10 with +-1, <=%d significant bits at every shift, '
                                 '<=%d-digit decimals at every decimal exponent, limits' % (B, 3 if tier == 'quick' else 4)})
     for typ in ('SINGLE', 'DOUBLE'):
-        dd = {'SINGLE': {'quick': '<=3 digits at every exponent', 'thorough': '<=4 digits at every exponent'},
-              'DOUBLE': {'quick': '<=2 digits at every exponent, <=3 digits for 1e-8..1e18 (cut from 3 everywhere)',
-                         'thorough': '<=3 digits at every exponent, <=4 digits for 1e-8..1e18 (cut from 4 everywhere)'}}
+        dd = {'SINGLE': {'quick': '<=3 digits at every exponent', 'thorough': '<=3 digits at every exponent, 4 digits for 1e-5..1e8 (cut from 4 everywhere)'},
+              'DOUBLE': {'quick': '1 digit at every exponent, <=2 digits for 1e-40..1e40, <=3 digits for 1e-8..1e18 (cut from 3 everywhere)',
+                         'thorough': '<=2 digits at every exponent, <=3 digits for 1e-40..1e40, 4 digits for 1e-2..1e7 (cut from 4 everywhere)'}}
         fams[typ] = (V.float_blocks(typ, tier),
                      {'classes': {'special': 'zero, largest, smallest normal, subnormals, 1, 0.5, 0.1 with neighbours',
                                   'pow2': '2^k for every k, +-1 ulp',
                                   'pow10': 'nearest to 10^k for every k, +-1 ulp, 10^k +- one unit of the 9th digit',
-                                  'mantissa': 'every value with <=%d significant mantissa bits at every exponent' % B,
+                                  'mantissa': 'every value with <=%d significant mantissa bits at every exponent' % V.mantissa_bits(typ, tier),
                                   'decimal': dd[typ][tier],
                                   'boundary': '%s-digit patterns 10..0, 9..9, 9..95, 49..9, 50..01, 1234.. and the '
                                               'half-way points next to them at every decimal exponent: the values of the '
@@ -349,9 +456,13 @@ def run(chk):
     chk.cov.pop('nontrivial', None)
     chk.assumptions = [
         'value sets are the structured sets listed per family (no random bit patterns); nothing is claimed outside them',
-        'SINGLE values enter through the RND device answer, LONG/DOUBLE through INPUT of str()/repr() of the value',
+        'SINGLE values enter through the RND device answer, LONG/DOUBLE through INPUT of str()/repr() of the value; '
+        'the typed operand of the first PRINT must be exactly the intended value (else: entry-differs)',
+        'values read back are observed as the typed operand of the PRINT instruction (operand stack), not as text',
         'for a plain numeral without fraction, trailing zeros are read as place holders (lenient reading); '
         'the number of cases where the strict reading would fail is reported as strict_reading_fails',
+        '"reproduces the value to that precision": the value read back is the original, or the shown numeral lies '
+        'within half a unit of its last shown digit of the value read back as well',
         'one configuration (O0, no debug info): the conversions are run-time library code']
     chk.finish(
         rule=('every value of every block (and its negation) is one evaluation: PRINT, STR$, INPUT/VAL/READ of the '
